@@ -88,7 +88,8 @@ Record fixes := mkFixes {
 Definition repaired : fixes := mkFixes true true true true true.
 Definition shipped : fixes := mkFixes false false false false false.
 
-Record cfg := mkCfg { c_engine : engine; c_proc : bool; c_wraps : bool (* force Kill wraps FatalError *); c_fix : fixes }.
+Record cfg := mkCfg { c_engine : engine; c_proc : bool; c_wraps : bool (* force Kill wraps FatalError *); c_fix : fixes;
+                      c_stfail : bool (* the store write of UpdateStatus(StatusRunning) may fail (an action of the model) *) }.
 
 Record st := mkSt {
   s_status : status;
@@ -309,6 +310,20 @@ Definition start_step (c : cfg) (s : st) (pc : spc) (choice : nat) : sres :=
   | SPublish i => SNext (with_map s (Some i)) (SStatus i) LTau
   | SStatus i =>
       let s1 := with_cur (with_status s Running) (Some i) in
+      if c_stfail c && negb (Nat.eqb choice 0) then
+        (* UpdateStatus(StatusRunning) fails in the store AFTER the in-memory status was set (pipeline.Service
+           mutates the instance first and does not roll back): Start returns the error.
+           v1: the publication is rolled back (compare-and-delete) and runPipeline returns BEFORE the cleanup
+               goroutine is registered: the node goroutines of run i keep running, nothing owns them.
+           v2: startupDone is closed, the run stays live and published. *)
+        match c_engine c with
+        | V1 => SFin (if onat_eqb (s_map s1) (Some i) then with_map s1 None else s1) RetErr (LStatus Running)
+        | V2 => match get_run s1 i with
+                | None => SStuck
+                | Some r => SFin (upd_run s1 i (rw_started r)) RetErr (LStatus Running)
+                end
+        end
+      else
       match c_engine c with
       | V1 => SNext s1 (SRegister i) (LStatus Running)
       | V2 => match get_run s1 i with
@@ -614,10 +629,13 @@ Fixpoint run_acts (c : cfg) (s : st) (l : list act) : option st :=
 (* ---------- state predicates used by the theorems ---------- *)
 Definition n_open (s : st) : nat := length (filter (fun i => src_open (s_runs s i)) (seq 0 (s_next s))).
 
-Definition cfg_v1 (proc : bool) : cfg := mkCfg V1 proc true repaired.
-Definition cfg_v2 (proc : bool) : cfg := mkCfg V2 proc true repaired.
-Definition cfg_v1_shipped (proc : bool) : cfg := mkCfg V1 proc true shipped.
-Definition cfg_v2_shipped (proc : bool) : cfg := mkCfg V2 proc true shipped.
+Definition cfg_v1 (proc : bool) : cfg := mkCfg V1 proc true repaired false.
+Definition cfg_v2 (proc : bool) : cfg := mkCfg V2 proc true repaired false.
+Definition cfg_v1_shipped (proc : bool) : cfg := mkCfg V1 proc true shipped false.
+Definition cfg_v2_shipped (proc : bool) : cfg := mkCfg V2 proc true shipped false.
+(* with failing status writes enabled *)
+Definition cfg_v1_io (proc : bool) : cfg := mkCfg V1 proc true repaired true.
+Definition cfg_v2_io (proc : bool) : cfg := mkCfg V2 proc true repaired true.
 
 (* labels produced by a list of actions (None when an action is not enabled) *)
 Fixpoint trace (c : cfg) (s : st) (l : list act) : option (list label * st) :=
